@@ -9,6 +9,7 @@ import (
 	"fmt"
 	"sort"
 	"strconv"
+	"strings"
 
 	index "github.com/blevesearch/bleve_index_api"
 )
@@ -77,6 +78,10 @@ type GenCfg struct {
 	MaxToks   int
 	BigVals   bool
 	IDDocVals bool // the _id field is indexed with doc values (legal, unusual)
+	// WideNums: positions, offsets, frequencies, field lengths and array positions
+	// that need 2-3 varint bytes (>= 128, >= 16384)
+	WideNums bool
+	Many     bool // several hundred fields: batches stay tiny
 }
 
 var alphabet = []string{"a", "b", "c", "d", "e", "ab", "ba", "é", "日", "z", "zz", "aa", "m", "~", "0", "b\x00"}
@@ -113,8 +118,17 @@ var vocabSizes = []int{1, 2, 3, 5, 8, 20}
 func genCfg(c *Chooser, wantSyn, wantVec bool) *GenCfg {
 	g := &GenCfg{}
 	nf := 1 + c.Choose(6, "cfg.nfields")
+	many := c.Prob(1, 50, "cfg.manyfields")
+	if many {
+		// more than 255 field ids in one segment, and one field name longer than
+		// 127 bytes (both cross a varint / byte boundary of the field table)
+		nf = 130 + c.Choose(170, "cfg.manyN")
+	}
 	for i := 0; i < nf; i++ {
 		p := fieldProfile{Name: "f" + strconv.Itoa(i), Kind: 't'}
+		if many && i == 7 {
+			p.Name = "f7_" + strings.Repeat("long", 40)
+		}
 		p.Opts = index.IndexField
 		if c.Choose(4, "cfg.stored") != 0 {
 			p.Opts |= index.StoreField
@@ -132,12 +146,21 @@ func genCfg(c *Chooser, wantSyn, wantVec bool) *GenCfg {
 		if c.Prob(1, 8, "cfg.skipfreq") {
 			p.Opts |= index.SkipFreqNorm
 		}
-		p.Vocab = genVocab(c, vocabSizes[c.Choose(len(vocabSizes), "cfg.vocab")], i == 0)
+		if many {
+			p.Vocab = genVocab(c, 2, false)
+		} else {
+			p.Vocab = genVocab(c, vocabSizes[c.Choose(len(vocabSizes), "cfg.vocab")], i == 0)
+		}
 		g.Fields = append(g.Fields, p)
 	}
 	g.Composite = c.Choose(3, "cfg.composite") == 0
 	g.IDSpace = 0 // set by caller
 	g.MaxToks = 1 + c.Choose(6, "cfg.maxtoks")
+	if many {
+		g.MaxToks = 1
+		g.Many = true
+	}
+	g.WideNums = c.Prob(1, 5, "cfg.widenums")
 	g.BigVals = c.Prob(1, 10, "cfg.bigvals")
 	g.IDDocVals = c.Prob(1, 8, "cfg.iddocvals")
 	if wantSyn {
@@ -145,6 +168,12 @@ func genCfg(c *Chooser, wantSyn, wantVec bool) *GenCfg {
 		for i := 0; i < ns; i++ {
 			p := fieldProfile{Name: "syn" + strconv.Itoa(i), Kind: 's', Opts: index.IndexField}
 			p.Vocab = genVocab(c, 2+c.Choose(5, "cfg.synvocab"), false)
+			if c.Prob(1, 12, "cfg.synbig") {
+				// more than 255 distinct synonyms in one thesaurus
+				for k := 0; k < 300; k++ {
+					p.Vocab = append(p.Vocab, "s"+strconv.Itoa(k))
+				}
+			}
 			g.SynFields = append(g.SynFields, p)
 		}
 	}
@@ -167,6 +196,9 @@ func idString(n int) string { return "d" + strconv.FormatInt(int64(n), 36) }
 
 func genAP(c *Chooser) []uint64 {
 	n := c.Skewed(4, "ap.n")
+	if c.Prob(1, 30, "ap.long") {
+		n = 5 + c.Choose(12, "ap.longn")
+	}
 	if n == 0 {
 		return nil
 	}
@@ -217,6 +249,20 @@ func genTextField(c *Chooser, p *fieldProfile, g *GenCfg, ap []uint64) FieldSpec
 		}
 	}
 	f.Len = nt
+	if g.WideNums && nt > 0 {
+		base := []int{0, 120, 130, 16380, 70000}[c.Choose(5, "wide.base")]
+		for i := range f.Toks {
+			for j := range f.Toks[i].Locs {
+				l := &f.Toks[i].Locs[j]
+				l.Pos += base
+				l.Start += base * 3
+				l.End += base * 3
+			}
+			// the frequency may exceed the number of recorded locations
+			f.Toks[i].Freq += []int{0, 0, 60, 130, 20000}[c.Choose(5, "wide.freq")]
+		}
+		f.Len += []int{0, 130, 300, 70000}[c.Choose(4, "wide.len")]
+	}
 	if p.Opts.SkipFreqNorm() {
 		for i := range f.Toks {
 			f.Toks[i].Freq = 0
@@ -344,6 +390,9 @@ func genSynDoc(c *Chooser, g *GenCfg, id string) DocSpec {
 // (updates).
 func genBatch(c *Chooser, g *GenCfg, n int, idSpace int) *BatchSpec {
 	b := &BatchSpec{}
+	if g.Many && n > 5 {
+		n = 5 // hundreds of fields per document: keep the batch tiny
+	}
 	if idSpace < n {
 		idSpace = n
 	}
